@@ -192,6 +192,57 @@ def r3_trivia(c, facts):
     else:
         c.bad(R, 'lexeme-is_trivia-not-delegating', 'the Lexeme impl of Token no longer delegates is_trivia to TokenKind::is_trivia')
 
+    # productions decide on token kinds only: a position read from the token list may end up in an error, never in a decision
+    nspan = 0
+    positional = set()
+    for fn in sorted(facts.fns.values(), key=lambda f: f.qname):
+        if not fn.mir or not fn.qname.startswith('oal_syntax::parser::parse_'):
+            continue
+        for b, t in fn.calls():
+            info = callee_of(t)
+            if not info:
+                continue
+            nm = P.strip(info['def'])
+            if not (nm.endswith('Context::span') or nm.endswith('TokenList::span') or nm.endswith('Cursor::index') or nm.endswith('::span::Span::start') or nm.endswith('::span::Span::end') or nm.endswith('Span::range')):
+                continue
+            nspan += 1
+            derived, calls = MF.forward_uses(fn, t['dest']['l'])
+            other = {P.strip(n).split('::')[-1] for n, ct, _, _ in calls} - {'new', 'clone', 'into', 'from', 'at', 'with'}
+            decides = any(blk['term']['t'] == 'switch' and blk['term']['discr'].get('l') in derived for _, blk in fn.blocks())
+            if other or decides:
+                positional.add(fn.qname.split('::{closure')[0].split('::')[-1])
+    c.floor(R, 'positions read in productions (error spans)', nspan, 1)
+    if positional:
+        c.bad(R, 'production-reads-positions:%s' % ','.join(sorted(positional)), 'production %s branches on, or computes with, the position of a token: inserting whitespace or a comment between two tokens changes what it accepts' % sorted(positional))
+    else:
+        c.ok(R, {'productions': 'token positions are used for error spans only'})
+
+
+def r8_roots(c, facts, rule='C05.R8'):
+    """what is emitted is what the resources reach: no phase of the evaluator enumerates the declarations of the main
+    program (those of imported modules would not be enumerated, so moving a group of declarations into a module would
+    change the document)"""
+    R = c.rule(rule, 'ROOTS: evaluation is driven by the resources alone; declarations are evaluated where they are used')
+    n = 0
+    roots = set()
+    for fn in sorted(facts.fns.values(), key=lambda f: f.qname):
+        if not fn.mir or not (fn.qname.startswith('oal_compiler::eval') or fn.crate == 'oal_openapi'):
+            continue
+        n += 1
+        for b, t in fn.calls():
+            info = callee_of(t)
+            nm = P.strip(info['def']) if info else ''
+            if nm.endswith('Program::declarations') or nm.endswith('Program::imports'):
+                roots.add('%s:%s' % (fn.qname.split('::{closure')[0].split('::')[-1], nm.split('::')[-1]))
+    c.floor(R, 'evaluator and emitter functions scanned', n, 100)
+    ep = c.anchor(R, 'oal_compiler::eval::eval_program')
+    if not any(P.call_blocks(g, 'Program::resources') for g in [ep] + list(facts.closures_of(ep)) if g.mir):
+        c.bad(R, 'eval_program:resources-not-enumerated', 'eval_program no longer enumerates the resources of the program')
+    if roots:
+        c.bad(R, 'evaluation-enumerates:%s' % ','.join(sorted(roots)), 'the evaluator enumerates the declarations / imports of the main program (%s): what is emitted then depends on which module a declaration lives in, not on what the resources use' % sorted(roots))
+    else:
+        c.ok(R, {'eval': 'only Program::resources is enumerated'})
+
 
 def r7_var_uniform(c, facts, rule='C05.R7'):
     """all kind predicates treat an unresolved tag alike, so that where a function is defined or applied cannot change the verdict"""
@@ -227,6 +278,7 @@ def r7_var_uniform(c, facts, rule='C05.R7'):
 def run(c, facts):
     import c10
     c.run(r7_var_uniform, facts)
+    c.run(r8_roots, facts)
     R6 = c.rule('C05.R6', 'JOIN-AGREE: a declaration moved into a module is found again: an import binds to the module that was loaded for it (shared with C10.R5)')
     c.shared(R6, c10.r5_join_agree, 'C10.R5', facts)
     c.run(r1_transparent, facts)
